@@ -4,7 +4,7 @@ defects found by the C36/C37/C38/C42 checks on the pinned tree.
     PYTHONPATH=/repo:/verif/shim DASK_DATAFRAME__CONVERT_STRING=False /venv/bin/python -W ignore vf/props/_df1_repros.py [ID ...]
 
 Each case prints ``DEFECT`` (dask raises / differs from pandas) or ``ok`` (no longer
-reproduces).  IDs are the ones used in ``_df1_known_findings.json``.
+reproduces).  Case names correspond to the ids in ``findings/C36.json`` ... ``findings/C42.json``.
 """
 import sys
 import warnings
@@ -217,13 +217,6 @@ def _():
     p = pd.DataFrame({"a": [5, 6, -7, -8]})
     d = dd.from_pandas(p, npartitions=2)
     return lambda: c(d[d.a < 0].min()), p[p.a < 0].min()
-
-
-@case("C37/var-skipna-false-empty-partition-nan")
-def _():
-    p = pd.DataFrame({"a": [5, 6], "b": [1, 2]})
-    d = from_pieces(p, [0, 0])  # two empty partitions, then the data
-    return lambda: c(d.var(skipna=False, split_every=2)), p.var(skipna=False)
 
 
 @case("C37/var-ddof-ge-count-not-nan")
